@@ -228,6 +228,50 @@ theorem shield {P : Prog} {c0 c c' : Cfg} (h0 : Started c0) (hi : InitScreenOnly
     obtain ⟨rest', hc'⟩ := show_step hs ((mem_newTr_iff hev rfl).1 hx')
     exact reach_draw h0 hr x rest' hc'
 
+/-- only `closeLoop` at the head logs `.closeReq` -/
+theorem closeReq_step {P : Prog} {v v' : SV} {evs : List Tr} {b : Bool} {n : Nat} (hs : SStepE P v evs v')
+    (h : Tr.closeReq b n ∈ evs) : ∃ rest, v.code = .closeLoop :: rest := by
+  cases hs with
+  | batch hc hb =>
+    cases hb <;> simp at h
+    exact ⟨_, hc⟩
+  | raise _ _ => exact absurd h (not_mem_exitEv_of_ne_exit (by simp))
+  | stutter | halt _ _ | apprun _ | restore _ _ | identSkip _ _ _ | enqAct _ => cases h
+  | kill _ | forceQuit _ | schedule _ | pushScr _ | replace _ _ | «open» _ _ | pop _ _ _ | popExit _ _ _
+  | pushModal _ | closeScreen _ _ | discard _ _ => simp at h
+
+theorem close_only_for_modal {P : Prog} {c0 c c' : Cfg} (h0 : Started c0) (hi : InitScreenOnly c0)
+    (hP : ScreenOnly P) (hC : ClosedSilent P) (hr : Reach P c0 c) (ht : Trans P c c') (hn : NoErr c)
+    (hq : WFQuietDrain c) {b : Bool} {n : Nat} (hx : Tr.closeReq b n ∈ newTr c c') :
+    modalCount c.A.stack + 2 = c.L.levels.length := by
+  obtain ⟨evs, hs, hev, _⟩ := trans_sstep ht
+  obtain ⟨rest, hc⟩ := closeReq_step hs ((mem_newTr_iff hev rfl).1 hx)
+  have hc' : c.code = .closeLoop :: rest := hc
+  have hno : overCode c.code = false := by rw [hc']; cases rest <;> rfl
+  have hQ : Quiet rest := by
+    rcases reach_win h0 hi hP hC hr hn hq with ho | ⟨_, _, hw⟩
+    · have : overCode c.code = true := ho
+      rw [hno] at this; cases this
+    · cases hw with
+      | quiet hq' =>
+        have : Quiet (Instr.closeLoop :: rest) := by rw [← hc']; exact hq'
+        exact quiet_tail this
+      | w5 hc'' hq' =>
+        have hc3 : c.code = _ := hc''
+        rw [hc'] at hc3; cases hc3; exact hq'
+      | w1 hc'' _ | w2 hc'' _ | w3 hc'' _ | w4 hc'' _ | w6 hc'' _ _ | w7 hc'' _ =>
+        have hc3 : c.code = _ := hc''
+        rw [hc'] at hc3; cases hc3
+  rcases reach_match h0 hi hP hr hn with ho | ⟨_, _, heq⟩
+  · have : overCode c.code = true := ho
+    rw [hno] at this; cases this
+  · have heq' : modalCount c.A.stack + 1 + pendCloses c.code = c.L.levels.length + pendOpens c.code := heq
+    rw [hc'] at heq'
+    have h1 : pendCloses (Instr.closeLoop :: rest) = pendCloses rest + 1 := rfl
+    have h2 : pendOpens (Instr.closeLoop :: rest) = pendOpens rest := rfl
+    have := hQ.1; have := hQ.2
+    omega
+
 end Shape
 
 end Simpleline
